@@ -7,6 +7,7 @@ from .source import ClassInfo, FuncInfo
 from .spec import REG
 from .symex import Val, OutOfSubset, Outcome, State, fresh_v, fresh_name, lit_str, BUILTIN_TYPES
 
+USED_TRUSTED = {}        # qual -> why: assumed (never verified) contracts applied in this run
 USED_BUILTINS = set()     # names of assumed built-in contracts actually used in this run (reported as trusted base)
 
 
@@ -130,6 +131,17 @@ def sp_fresh(ex, e, st):
     return Val(mk_b(z3.And(is_r(v.t), rv(v.t) >= base)), 'bool')
 
 
+def sp_heapobj(ex, e, st):
+    # heapobj(x): a dynamically allocated object (not a class-level / module-level static one)
+    v = ex.ev(e.args[0], st)
+    return Val(mk_b(z3.And(is_r(v.t), rv(v.t) >= 0)), 'bool')
+
+
+def sp_hashable(ex, e, st):
+    v = ex.ev(e.args[0], st)
+    return Val(mk_b(hash_ok(v.t)), 'bool')
+
+
 def sp_typeis(ex, e, st):
     # typeis(x, 'list') / typeis(x, 'obj:yaml.nodes.ScalarNode')
     v = ex.ev(e.args[0], st)
@@ -180,7 +192,30 @@ def sp_charcode(ex, e, st):
     return Val(mk_i(z3.StrToCode(sv(v.t))), 'int')
 
 
-SPEC_FUNCS = {'old': sp_old, 'implies': sp_implies, 'iff': sp_iff, 'forall': sp_forall, 'exists': sp_exists,
+def static_class_of(ex, v):
+    n = ex._const_int(rv(v.t))
+    nm = ex.w.static_names.get(n, '') if n is not None else ''
+    if nm.startswith('class:'):
+        return ex.repo.cls(nm[6:])
+    return None
+
+
+def sp_isinst_any(ex, e, st):
+    # isinst_any(x, choices): x is an instance of one of the classes in the tuple display `choices`
+    v = ex.ev(e.args[0], st)
+    ch = ex.ev(e.args[1], st)
+    if ch.elems is None:
+        raise OutOfSubset('isinst_any needs a literal tuple of classes')
+    alts = []
+    for c in ch.elems:
+        ci = static_class_of(ex, c)
+        if ci is None:
+            raise OutOfSubset('isinst_any: not a library class')
+        alts.append(z3.And(is_r(v.t), z3.Or(*[typ(rv(v.t)) == i for i in ex.w.subclass_ids(ci)])))
+    return Val(mk_b(z3.Or(*alts) if alts else z3.BoolVal(False)), 'bool')
+
+
+SPEC_FUNCS = {'hashable': sp_hashable, 'heapobj': sp_heapobj, 'isinst_any': sp_isinst_any, 'old': sp_old, 'implies': sp_implies, 'iff': sp_iff, 'forall': sp_forall, 'exists': sp_exists,
               'forall_v': sp_forall_v, 'fresh': sp_fresh, 'typeis': sp_typeis, 'exact': sp_exact,
               'seq': sp_seq, 'keys': sp_keys, 'haskey': sp_haskey, 'dget': sp_dget, 'func': sp_func,
               'as_': sp_as, 'code': sp_charcode}
@@ -257,8 +292,23 @@ def class_pred(ex, v, cnode, st):
             return z3.And(is_r(v.t), typ(rv(v.t)) == BUILTIN_TYPES[n])
     if isinstance(cnode, ast.Attribute):
         q = ast.unparse(cnode)
+        if q == 'collections.abc.Hashable':
+            used('isinstance(x, Hashable): false exactly for list/dict/set objects (library and user classes are assumed hashable)')
+            return isinstance_hashable(v.t)
         return z3.And(is_r(v.t), typ(rv(v.t)) == ex.w.class_id(q))
     raise OutOfSubset('isinstance against %s' % ast.unparse(cnode))
+
+
+def isinstance_hashable(t):
+    return z3.Or(z3.Not(is_r(t)), z3.And(typ(rv(t)) != 1, typ(rv(t)) != 2, typ(rv(t)) != 4))
+
+
+tuple_hash_ok = z3.Function('tuple_hash_ok', z3.IntSort(), z3.BoolSort())    # hash(t) succeeds for the tuple object t (depends on its elements)
+
+
+def hash_ok(t):
+    """hash(v) does not raise: scalars always, list/dict/set never, tuples iff their elements hash"""
+    return z3.Or(z3.Not(is_r(t)), z3.And(typ(rv(t)) != 1, typ(rv(t)) != 2, typ(rv(t)) != 4, z3.Or(typ(rv(t)) != 3, tuple_hash_ok(rv(t)))))
 
 
 def b_isinstance(ex, e, st):
@@ -411,7 +461,15 @@ def b_repr(ex, e, st):
     return Val(mk_s(f(v.t)), 'str')
 
 
-BUILTIN_FUNCS = {'len': b_len, 'isinstance': b_isinstance, 'ord': b_ord, 'chr': b_chr, 'int': b_int, 'str': b_str,
+def b_next(ex, e, st):
+    key = ('next', ex.f.qual)
+    if key not in REG.externs:
+        raise OutOfSubset('next() without an assumed generator contract (line %d)' % e.lineno)
+    args = [ex.ev(a, st) for a in e.args]
+    return apply_contract(ex, REG.externs[key], None, st.env.get('self'), args[1:], {}, e, st, pnames=None, extra_env={'callee': args[0]})
+
+
+BUILTIN_FUNCS = {'next': b_next, 'len': b_len, 'isinstance': b_isinstance, 'ord': b_ord, 'chr': b_chr, 'int': b_int, 'str': b_str,
                  'bool': b_bool, 'list': b_list, 'tuple': b_tuple, 'dict': b_dict, 'getattr': b_getattr,
                  'hasattr': b_hasattr, 'max': b_max, 'min': b_min, 'id': b_id, 'type': b_type, 'repr': b_repr}
 
@@ -587,6 +645,9 @@ def m_bytes(ex, recv, name, e, st):
     raise OutOfSubset('bytes.%s' % name)
 
 
+STR_METHODS = {'startswith', 'endswith', 'lower', 'upper', 'strip', 'lstrip', 'rstrip', 'replace', 'join', 'encode', 'split', 'isdigit', 'find'}
+
+
 def call_method(ex, recv, name, e, st):
     ty = recv.ty
     # contracts for externals keyed by static receiver type
@@ -606,6 +667,10 @@ def call_method(ex, recv, name, e, st):
         return m_bytes(ex, recv, name, e, st)
     if ty == 'tuple' and name in ('index', 'count'):
         return m_list(ex, recv, name, e, st)
+    if ty is None and name in STR_METHODS:
+        # dynamic receiver: a str method on a non-str raises AttributeError
+        ex.raise_if(st, z3.Not(is_s(recv.t)), 'AttributeError', 'safe/str-method-' + name, e)
+        return m_str(ex, Val(recv.t, 'str'), name, e, st)
     cls = ex.recv_class(recv)
     if cls is None and isinstance(e.func.value, ast.Name) and e.func.value.id == 'self' and ex.ctx is not None:
         cls = ex.ctx
@@ -623,10 +688,13 @@ def call_method(ex, recv, name, e, st):
 
 
 def call_value(ex, callee, e, st):
-    key = ('value', 'call')
+    key = ('value-call', ex.f.qual)
+    if key not in REG.externs:
+        key = ('value', 'call')
     if key in REG.externs:
         args = [ex.ev(a, st) for a in e.args]
-        return apply_contract(ex, REG.externs[key], None, callee, args, kwargs_of(e), e, st, pnames=None)
+        # `self` in these assumed contracts is the enclosing function's self; the callee value is `callee`
+        return apply_contract(ex, REG.externs[key], None, st.env.get('self'), args, kwargs_of(e), e, st, pnames=None, extra_env={'callee': callee})
     raise OutOfSubset('call of a computed callable (line %d)' % e.lineno)
 
 
@@ -646,8 +714,13 @@ def bind_params(ex, finfo, recv, args, kw, st):
     if recv is not None and names:
         env[names[0]] = recv
         names = names[1:]
-    if a.vararg is not None or a.kwarg is not None:
-        raise OutOfSubset('*args/**kwargs callee %s' % finfo.qual)
+    if a.kwarg is not None:
+        raise OutOfSubset('**kwargs callee %s' % finfo.qual)
+    if a.vararg is not None:
+        extra = pos[len(names):]
+        pos = pos[:len(names)]
+        env[a.vararg.arg] = ex.new_list(st, ex.seq_lit(extra), 'tuple')
+        env[a.vararg.arg].elems = list(extra)
     if len(pos) > len(names):
         raise OutOfSubset('too many arguments for %s' % finfo.qual)
     for n, v in zip(names, pos):
@@ -779,10 +852,10 @@ def modifies_points(ex, clauses, view, st):
     return pts
 
 
-def apply_contract(ex, c, finfo, recv, args, kw, e, st, env=None, pnames=None):
+def apply_contract(ex, c, finfo, recv, args, kw, e, st, env=None, pnames=None, extra_env=None):
     """modular call: check requires, havoc modifies, assume ensures, fork declared exceptions"""
     if env is None:
-        env = {}
+        env = dict(extra_env or {})
         names = list(c.params) if c.params else []
         if recv is not None:
             env['self'] = recv
@@ -798,6 +871,8 @@ def apply_contract(ex, c, finfo, recv, args, kw, e, st, env=None, pnames=None):
             env[n] = Val(env[n].t, ex.static_ty(ty))
     if ex.spec_mode:
         raise OutOfSubset('call to %s inside a specification' % c.qual)
+    if c.trusted:
+        USED_TRUSTED[c.qual] = c.why_trusted
     view = State()
     view.env = env
     view.heap, view.pc, view.alloc = st.heap, st.pc, st.alloc
